@@ -1,4 +1,11 @@
 import CoxeterVerif.Lemmas.Structure
+import CoxeterVerif.Lemmas.StructureFuel
+import CoxeterVerif.Lemmas.StructureCheck
+import CoxeterVerif.Lemmas.StructureCert
+import CoxeterVerif.Lemmas.StructureHull
+import CoxeterVerif.Lemmas.StructureMerge
+import CoxeterVerif.Lemmas.StructureAngular
+import CoxeterVerif.Lemmas.StructureRat
 /-!
   # C07 — face, normal, neighbour and edge structure of polyhedra is consistent
 
@@ -10,19 +17,33 @@ import CoxeterVerif.Lemmas.Structure
   * `neighbors_iff_shared_edge`, `neighbors_symm`, `neighbors_length`
   * `face_equation_contains_first_vertices`, `face_equation_unit_normal`,
     `face_equation_outward_ccw`, `face_equation_flip`
-  * `propagation_flips_consistently_partial` — the traversal of `_sort_simplices` /
-    `Polyhedron.sort_faces` links every visited face to the face it was discovered from
-  * `propagation_orients`, `propagation_visits_component`, `propagation_orients_all` — on an
-    orientable, connected face graph the traversal returns the consistent orientation up to
-    one global flip
-  * `reverse_all_negates_volume`, `sort_simplices_volume_nonneg`, `poly_flip_negates_volume`
+  * `propagation_discovery_tree` (unconditional), `propagation_terminates` (the fuel always
+    suffices), `propagation_visits_exactly_component`, `propagation_orients`,
+    `propagation_flips_consistently` (FULL: connected orientable surface ⇒ the result is the
+    consistent orientation or its global reversal, as lists, and is closed oriented),
+    `sort_simplices_outward` (FULL: the volume-sign flip makes it the OUTWARD one — under the
+    decidable `simplexCert` the model's `_sort_simplices` returns exactly the certified simplices),
+    `poly_sort_faces_oriented`
+  * `reverse_all_negates_volume`, `sort_simplices_volume_nonneg`, `poly_flip_negates_volume`,
+    `signed_volume_origin_independent`, `outward_volume_positive`
+  * `surface_cert_sound` — the exact surface certificate (closed oriented 2-manifold, supporting
+    facets, Euler count) implies the clauses of the property: `2E = Σ|f|`, every face is a facet of
+    the hull (`IsHullFacet`, `hull_facet_is_exposed_face`), the `_find_equations` plane is a unit
+    outward normal containing the whole face with all other vertices strictly inside,
+    `V − E + F = 2`, `num_edges` agree
+  * `merge_graph_entry`, `merge_faces_components`, `merge_chain_tolerance`,
+    `merge_not_pairwise_close` (the `allclose` transitivity caveat)
+  * `angular_order_sorted`, `cp_sort_face_ccw` — the angular sort lists a face counter-clockwise
+    about its normal (consecutive strict left turns about the vertex mean)
   * `sorted_unique_spec`, `combine_simplices_faces`, `merged_faces_union`, `cp_sort_face_perm`,
-    `dihedral_symm`
+    `dihedral_symm`, `dihedral_range`, `dihedral_cos`, `edge_lengths_spec`,
+    `num_edges_convex_iff_euler`, `dihedral_py_index`
 
-  NOT provable here (stated in notes/C07.md and in the claim): Euler's relation `V − E + F = 2`
-  and "the faces are THE facets of the convex hull" rest on Qhull's output; they are enforced
-  per instance by the oracle certificate of the harness (closed oriented surface of supporting
-  facets, exact over ℚ for integral inputs).
+  NOT provable here (stated in notes/C07.md and in the claim): COMPLETENESS of the face list
+  ("there is no further facet of the hull") — it needs that a closed 2-manifold of supporting
+  facets covers the whole boundary of the hull (degree / invariance-of-domain argument, not in
+  Mathlib for this setting); it is enforced per instance by the Euler count of the certificate and
+  by the independent-hull oracle.
 -/
 open Struct StructLemmas Scalar
 set_option maxRecDepth 4000
@@ -157,6 +178,66 @@ theorem face_equation_outward_ccw (p v0 v1 v2 : V3 ℝ) (h : StructSpec.CcwAwayF
   rw [key]
   exact div_neg_of_neg_of_pos (by linarith) hnpos
 
+/-- **C07 simplex equations.** `_find_simplex_equations` (normal `cross(b−a, c−a)`, normalised,
+`d = −n·a`): for a simplex that appears counter-clockwise from the side opposite to `p` the equation
+is a unit normal pointing away from `p`, and its plane contains the three vertices. -/
+theorem simplex_equation_outward_ccw (p a b c : V3 ℝ) (h : StructSpec.CcwAwayFrom p a b c) :
+    let e := simplexEquation ⟨a, b, c⟩
+    V3.dot e.1 p + e.2 < 0 ∧ V3.normSq e.1 = 1 ∧
+    StructSpec.OnPlane e.1 e.2 a ∧ StructSpec.OnPlane e.1 e.2 b ∧ StructSpec.OnPlane e.1 e.2 c := by
+  have hdet := det_eq_dot_raw p a b c
+  unfold StructSpec.CcwAwayFrom at h
+  simp only [Scalar.lit, Scalar.ofNat_real, Nat.cast_zero] at h
+  rw [hdet] at h
+  simp only [simplexEquation]
+  have hn : V3.cross (b - a) (c - a) = StructSpec.rawNormal a b c := rfl
+  rw [hn]
+  set n := StructSpec.rawNormal a b c with hndef
+  have hnpos : 0 < V3.norm n := by
+    rcases (norm_nonneg n).lt_or_eq with h1 | h1
+    · exact h1
+    · exfalso
+      have hz : V3.normSq n = 0 := by rw [← norm_sq_eq, ← h1]; ring
+      unfold V3.normSq V3.dot at hz
+      have hx : n.x = 0 := by nlinarith [sq_nonneg n.x, sq_nonneg n.y, sq_nonneg n.z]
+      have hy : n.y = 0 := by nlinarith [sq_nonneg n.x, sq_nonneg n.y, sq_nonneg n.z]
+      have hzz : n.z = 0 := by nlinarith [sq_nonneg n.x, sq_nonneg n.y, sq_nonneg n.z]
+      unfold V3.dot at h
+      rw [hx, hy, hzz] at h
+      simp at h
+  have hsq := norm_sq_eq n
+  have key : ∀ v : V3 ℝ, V3.dot (V3.sdiv n (V3.norm n)) v + -(V3.dot (V3.sdiv n (V3.norm n)) a)
+      = V3.dot n (v - a) / V3.norm n := by
+    intro v
+    unfold V3.dot
+    simp only [V3.sdiv_x, V3.sdiv_y, V3.sdiv_z, V3.sub_x, V3.sub_y, V3.sub_z]
+    field_simp
+    ring
+  have hna : V3.dot n (a - a) = 0 := by
+    unfold V3.dot; simp only [V3.sub_x, V3.sub_y, V3.sub_z]; ring
+  have hnb : V3.dot n (b - a) = 0 := by
+    rw [hndef]; obtain ⟨ax, ay, az⟩ := a; obtain ⟨bx, b_y, bz⟩ := b; obtain ⟨cx, cy, cz⟩ := c
+    unfold StructSpec.rawNormal; unfold_model; ring
+  have hnc : V3.dot n (c - a) = 0 := by
+    rw [hndef]; obtain ⟨ax, ay, az⟩ := a; obtain ⟨bx, b_y, bz⟩ := b; obtain ⟨cx, cy, cz⟩ := c
+    unfold StructSpec.rawNormal; unfold_model; ring
+  refine ⟨?_, ?_, ?_, ?_, ?_⟩
+  · rw [key]
+    have : V3.dot n (p - a) = -(V3.dot n (a - p)) := by
+      unfold V3.dot; simp only [V3.sub_x, V3.sub_y, V3.sub_z]; ring
+    rw [this]
+    exact div_neg_of_neg_of_pos (by linarith) hnpos
+  · have : V3.normSq (V3.sdiv n (V3.norm n)) = V3.normSq n / (V3.norm n * V3.norm n) := by
+      unfold V3.normSq V3.dot
+      simp only [V3.sdiv_x, V3.sdiv_y, V3.sdiv_z]
+      field_simp
+    rw [this, hsq]
+    have : V3.normSq n ≠ 0 := by rw [← hsq]; exact mul_ne_zero hnpos.ne' hnpos.ne'
+    exact div_self this
+  · unfold StructSpec.OnPlane; simp only [Scalar.lit, Scalar.ofNat_real, Nat.cast_zero]; rw [key, hna]; simp
+  · unfold StructSpec.OnPlane; simp only [Scalar.lit, Scalar.ofNat_real, Nat.cast_zero]; rw [key, hnb]; simp
+  · unfold StructSpec.OnPlane; simp only [Scalar.lit, Scalar.ofNat_real, Nat.cast_zero]; rw [key, hnc]; simp
+
 /-- reversing the vertex order of a face negates its plane equation (what the global flip of
 `Polyhedron.sort_faces` does with `equations[i] *= -1`) -/
 theorem face_equation_flip (v0 v1 v2 : V3 ℝ) :
@@ -182,22 +263,15 @@ end
 
 /-! ### orientation propagation -/
 
-/-- **C07 propagation (partial).** After the traversal of `_sort_simplices` /
-`Polyhedron.sort_faces` (any neighbour lists, any faces, started at face 0):
+/-- **C07 propagation, discovery tree (no hypothesis at all).** After the traversal of
+`_sort_simplices` / `Polyhedron.sort_faces` (any neighbour lists, any faces, started at face 0):
 * every face is either unchanged or reversed;
 * every visited face `v ≠ 0` was discovered from a visited face `u ≠ v` whose neighbour list
   contains `v`, and if `u` and `v` share an edge then (in their FINAL orientation) they traverse
   a common edge in opposite directions.
-
-`_partial`: this is consistency along the discovery tree. What is missing for the full claim
-"all neighbouring faces are consistently oriented and the result is the outward orientation":
-(1) consistency across non-tree neighbour pairs needs orientability of the surface and that two
-faces share at most one edge (true for the boundary of a convex polyhedron — a fact about Qhull's
-output, checked per instance by the harness: `spec.closed_oriented` on the resulting faces);
-(2) that every face is reached needs connectedness of the neighbour graph;
-(3) that the volume-sign flip yields the OUTWARD orientation needs the geometry of the hull
-(`reverse_all_negates_volume` / `sort_simplices_volume_nonneg` give the sign part). -/
-theorem propagation_flips_consistently_partial (nbrs : List (List Nat)) (F : List Face) :
+(This was `propagation_flips_consistently_partial`; the full statement is
+`propagation_flips_consistently` below.) -/
+theorem propagation_discovery_tree (nbrs : List (List Nat)) (F : List Face) :
     let st := propagate nbrs F
     st.faces.length = F.length ∧
     (∀ k, st.faces.getD k [] = F.getD k [] ∨ st.faces.getD k [] = (F.getD k []).reverse) ∧
@@ -206,6 +280,16 @@ theorem propagation_flips_consistently_partial (nbrs : List (List Nat)) (F : Lis
         StructSpec.OppositeOn (st.faces.getD u []) (st.faces.getD v []))) := by
   have h := propagate_inv nbrs F
   exact ⟨h.len, h.orig, h.tree⟩
+
+/-- **C07 the `while` loop always terminates within the model's fuel**: for EVERY neighbour table
+the final stack is empty (each pass pops one entry; an index is pushed only while unvisited and is
+marked visited at once, so at most `Σ|nbrs[i]|` pushes happen). -/
+theorem propagation_terminates (nbrs : List (List Nat)) (F : List Face) :
+    (propagate nbrs F).stack = [] := propagate_stack_empty nbrs F
+
+/-- **C07 the traversal visits exactly the connected component of face 0.** -/
+theorem propagation_visits_exactly_component (nbrs : List (List Nat)) (F : List Face) (k : Nat) :
+    k ∈ (propagate nbrs F).visited ↔ StructSpec.Reach nbrs k := visited_iff_reach nbrs F k
 
 /-- one step of the inner loop, on its own: orienting `nb` against `cur` makes them traverse a
 shared edge in opposite directions -/
@@ -253,25 +337,62 @@ theorem propagation_orients (nbrs : List (List Nat)) (F G : List Face)
   | false => simpa [StructSpec.flipIf] using href.consistent u v hnb
   | true => simpa [StructSpec.flipIf] using consistent_reverse (href.consistent u v hnb)
 
-/-- **C07 the traversal reaches the whole component of face 0** whenever it ends with an empty
-stack (the driver reports this flag for every instance; the fuel `Σ|nbrs[i]| + 2` always
-suffices in practice because every pass pops one entry and only unvisited faces are pushed). -/
+/-- **C07 the traversal reaches the whole component of face 0** (no stack hypothesis any more:
+`propagation_terminates`). -/
 theorem propagation_visits_component (nbrs : List (List Nat)) (F : List Face)
-    (hdone : (propagate nbrs F).stack = []) (k : Nat) (hk : StructSpec.Reach nbrs k) :
-    k ∈ (propagate nbrs F).visited := by
-  induction hk with
-  | zero => exact zero_mem_visited nbrs F
-  | step _ hv ih => exact propagate_closed nbrs F hdone _ ih _ hv
+    (k : Nat) (hk : StructSpec.Reach nbrs k) : k ∈ (propagate nbrs F).visited :=
+  (visited_iff_reach nbrs F k).mpr hk
 
-/-- **C07 propagation, complete form.** On a connected, consistently orientable face graph the
-traversal orients EVERY face like the reference orientation, up to one global flip. -/
+/-- **C07 propagation, complete form (index-wise).** On a connected, consistently orientable face
+graph the traversal orients EVERY face like the reference orientation, up to one global flip. -/
 theorem propagation_orients_all (nbrs : List (List Nat)) (F G : List Face)
-    (href : StructSpec.RefOrientation nbrs F G) (hdone : (propagate nbrs F).stack = [])
+    (href : StructSpec.RefOrientation nbrs F G)
     (hconn : ∀ k, k < F.length → StructSpec.Reach nbrs k) :
     ∃ c : Bool, ∀ k, k < F.length →
       (propagate nbrs F).faces.getD k [] = StructSpec.flipIf c (G.getD k []) := by
   obtain ⟨c, hc⟩ := (propagation_orients nbrs F G href).1
-  exact ⟨c, fun k hk => hc k (propagation_visits_component nbrs F hdone k (hconn k hk))⟩
+  exact ⟨c, fun k hk => hc k (propagation_visits_component nbrs F k (hconn k hk))⟩
+
+/-- **C07 propagation flips consistently (FULL).** Let `G` be a closed oriented surface that keeps
+or reverses every face of `F` (the surface is orientable), let every listed neighbour pair consist
+of two different faces sharing an edge (true for `_find_neighbors`: `neighbors_iff_shared_edge`;
+a checked contract for Qhull's table), and let the neighbour graph be connected. Then the
+traversal of `_sort_simplices` / `Polyhedron.sort_faces` — with NO assumption on fuel, stack or
+visiting order —
+* returns exactly `G` or exactly the global reversal of `G` (as lists),
+* so its result is again a closed oriented surface: ALL neighbouring faces, not only those of the
+  discovery tree, traverse their shared edges in opposite directions,
+* and it has visited every face. -/
+theorem propagation_flips_consistently (nbrs : List (List Nat)) (F G : List Face)
+    (hlen : G.length = F.length)
+    (horig : ∀ k, k < F.length → G.getD k [] = F.getD k [] ∨ G.getD k [] = (F.getD k []).reverse)
+    (hclosed : StructSpec.ClosedOriented G)
+    (hnb : ∀ u v, v ∈ nbrs.getD u [] → u ≠ v ∧ StructSpec.SharesEdge (F.getD u []) (F.getD v []))
+    (hconn : ∀ k, k < F.length → StructSpec.Reach nbrs k) :
+    ((propagate nbrs F).faces = G ∨ (propagate nbrs F).faces = reverseAll G) ∧
+    StructSpec.ClosedOriented (propagate nbrs F).faces ∧
+    (∀ k, k < F.length → k ∈ (propagate nbrs F).visited) := by
+  have href := refOrientation_of_closed (orig_all hlen horig) hclosed.nodup hnb
+  have h := propagate_eq_ref nbrs F G hlen href hconn
+  refine ⟨h, ?_, fun k hk => (visited_iff_reach nbrs F k).mpr (hconn k hk)⟩
+  rcases h with h | h
+  · rw [h]; exact hclosed
+  · rw [h]; exact closedOriented_reverseAll hclosed
+
+/-- the same with the decidable hypotheses the driver evaluates (`orientCert`) for the neighbour
+table that `Polyhedron.sort_faces` computes itself -/
+theorem propagation_flips_consistently_cert (F G : List Face) (N : List (List Nat))
+    (hN : findNeighbors F = .ok N) (hcert : orientCert F G = true) :
+    ((propagate N F).faces = G ∨ (propagate N F).faces = reverseAll G) ∧
+    StructSpec.ClosedOriented (propagate N F).faces := by
+  unfold orientCert at hcert
+  rw [hN] at hcert
+  simp only [Bool.and_eq_true] at hcert
+  obtain ⟨⟨h1, h2⟩, h3⟩ := hcert
+  obtain ⟨hlen, horig⟩ := (sameUpToReversalB_iff F G).mp h1
+  have := propagation_flips_consistently N F G hlen horig ((closedOrientedB_iff G).mp h2)
+    (findNeighbors_shares hN) ((visitsAll_iff N F).mp h3)
+  exact ⟨this.1, this.2.1⟩
 
 /-! ### global flip by the sign of the volume -/
 
@@ -336,6 +457,96 @@ theorem sort_simplices_volume_nonneg (verts : List (V3 ℝ)) (start : List Face)
       · exact Or.inl (by rw [h, List.reverse_reverse])
   · exact ⟨not_lt.mp hneg, hinv.orig⟩
 
+/-- **C07 the signed volume of a closed oriented triangulation does not depend on the origin**
+(every edge is traversed once in each direction, so the edge terms cancel). -/
+theorem signed_volume_origin_independent (verts : List (V3 ℝ)) (S : List Face)
+    (h3 : ∀ s ∈ S, s.length = 3) (hcl : StructSpec.ClosedOriented S) (p : V3 ℝ) :
+    CP.signedVolume (S.map fun s => (triOf verts s).map (· - p)) = CP.signedVolume (S.map (triOf verts)) :=
+  signedVolume_translate_closed verts S h3 hcl p
+
+/-- **C07 an outward closed oriented triangulation has positive signed volume.** -/
+theorem outward_volume_positive (verts : List (V3 ℝ)) (S : List Face) (hne : S ≠ [])
+    (h3 : ∀ s ∈ S, s.length = 3) (hcl : StructSpec.ClosedOriented S) (p : V3 ℝ)
+    (hout : StructSpec.outwardFromB verts p S = true) :
+    0 < CP.signedVolume (S.map (triOf verts)) :=
+  signedVolume_pos_of_outward verts S hne h3 hcl p hout
+
+theorem reverseAll_reverseAll (G : List Face) : reverseAll (reverseAll G) = G := by
+  unfold reverseAll
+  rw [List.map_map]
+  conv_rhs => rw [← List.map_id G]
+  apply List.map_congr_left
+  intro f _; simp
+
+/-- **C07 `_sort_simplices` returns the OUTWARD consistent orientation (FULL).**
+If `G` keeps or reverses every start simplex, is a closed oriented surface of triangles each of
+which appears counter-clockwise from the side opposite to some point `p` (i.e. `G` is the outward
+orientation of the boundary of a solid containing `p`), the listed neighbour pairs are different
+simplices sharing an edge and the neighbour graph is connected — all of this is the decidable
+`simplexCert`, which the driver evaluates exactly over ℚ with `G` = the implementation's own
+simplices and `p` = the vertex mean — then the model of `_sort_simplices` (traversal + global flip
+by the sign of the volume) returns EXACTLY `G`. -/
+theorem sort_simplices_outward (verts : List (V3 ℝ)) (start : List Face) (nbrs : List (List Nat))
+    (G : List Face) (p : V3 ℝ) (hcert : simplexCert verts start nbrs G p = true) :
+    sortSimplices verts start nbrs = G ∧ StructSpec.ClosedOriented G ∧
+    0 < CP.signedVolume (G.map (triOf verts)) := by
+  unfold simplexCert at hcert
+  simp only [Bool.and_eq_true, List.all_eq_true, beq_iff_eq, Bool.not_eq_true',
+    List.isEmpty_eq_false_iff] at hcert
+  obtain ⟨⟨⟨⟨⟨⟨h1, h2⟩, h3⟩, h4⟩, h5⟩, h6⟩, h7⟩ := hcert
+  obtain ⟨hlen, horig⟩ := (sameUpToReversalB_iff start G).mp h1
+  have hcl := (closedOrientedB_iff G).mp h2
+  have hG3 : ∀ s ∈ G, s.length = 3 := by
+    intro s hs
+    obtain ⟨k, hk, rfl⟩ := List.mem_iff_getElem.mp hs
+    have hk' : k < start.length := by omega
+    have := horig k hk'
+    simp only [List.getD_eq_getElem?_getD, List.getElem?_eq_getElem hk, List.getElem?_eq_getElem hk',
+      Option.getD_some] at this
+    have h0 := h6 _ (List.getElem_mem hk')
+    rcases this with h | h
+    · rw [h]; exact h0
+    · rw [h, List.length_reverse]; exact h0
+  have hpos := signedVolume_pos_of_outward verts G h7 hG3 hcl p h5
+  have hprop := (propagation_flips_consistently nbrs start G hlen horig hcl (nbrsShareB_spec h3)
+    ((visitsAll_iff nbrs start).mp h4)).1
+  refine ⟨?_, hcl, hpos⟩
+  unfold sortSimplices
+  simp only [Scalar.lit, Scalar.ofNat_real, Nat.cast_zero]
+  rcases hprop with h | h
+  · rw [h, if_neg (not_lt.mpr (le_of_lt hpos))]
+  · rw [h]
+    have hneg := reverse_all_negates_volume verts G hG3
+    rw [if_pos (by rw [hneg]; linarith), reverseAll_reverseAll]
+
+/-- **C07 `Polyhedron.sort_faces` (traversal + global flip) is consistently oriented.** When the
+re-ordered faces have a closed oriented reference `G` and their neighbour graph is connected
+(`orientCert`, evaluated by the driver), the faces `polySortFacesCore` returns are `G` or the
+global reversal of `G`; in particular they form a closed oriented surface. Which of the two is
+decided by the sign of `Polyhedron.volume` (`poly_flip_negates_volume`). -/
+theorem poly_sort_faces_oriented (verts : List (V3 ℝ)) (faces : List Face) (areas : List ℝ)
+    (G : List Face) (hcert : orientCert faces G = true)
+    (r : List Face × List (Eqn ℝ) × List (List Nat)) (hr : polySortFacesCore verts faces areas = .ok r) :
+    (r.1 = G ∨ r.1 = reverseAll G) ∧ StructSpec.ClosedOriented r.1 := by
+  unfold polySortFacesCore at hr
+  rcases hN : findNeighbors faces with err | N
+  · rw [hN] at hr; simp [Except.map] at hr
+  · rw [hN] at hr
+    simp only [Except.map, Except.ok.injEq] at hr
+    obtain ⟨hp, hcl⟩ := propagation_flips_consistently_cert faces G N hN hcert
+    have hGcl : StructSpec.ClosedOriented G := by
+      unfold orientCert at hcert
+      simp only [Bool.and_eq_true] at hcert
+      exact (closedOrientedB_iff G).mp hcert.1.2
+    subst hr
+    split_ifs
+    · simp only
+      rcases hp with h | h
+      · rw [h]; exact ⟨Or.inr rfl, closedOriented_reverseAll hGcl⟩
+      · rw [h, reverseAll_reverseAll]; exact ⟨Or.inl rfl, hGcl⟩
+    · simp only
+      exact ⟨hp, hcl⟩
+
 /-- the same for `Polyhedron.sort_faces`: negating all plane offsets (`equations *= -1`) negates
 `Polyhedron.volume = Σ(−d·A)/3` (the areas are orientation independent) -/
 theorem poly_flip_negates_volume (eqs : List (Eqn ℝ)) (areas : List ℝ) :
@@ -362,7 +573,7 @@ theorem dihedral_symm (nbrs : List (List Nat)) (normals : List (V3 ℝ)) (a b : 
   congr 2
   unfold V3.dot
   simp only [V3.neg_x, V3.neg_y, V3.neg_z]
-  ring
+  ring_nf
 
 /-- the angular sort of `ConvexPolyhedron.sort_faces` only permutes the vertices of the face
 (any rotation matrix, any coordinates) -/
@@ -441,6 +652,309 @@ theorem merged_faces_union (faces : List Face) (labels : List Nat) (l : Nat)
     · exact List.mem_iff_getElem.mpr ⟨i, by simp [List.length_zip]; omega, by simp [List.getElem_zip]⟩
     · rw [List.getD_eq_getElem?_getD, List.getElem?_eq_getElem h2] at h3; simpa using h3
     · rw [List.getD_eq_getElem?_getD, List.getElem?_eq_getElem h1] at h4; simpa using h4
+
+/-! ### the exact surface certificate implies the clauses of the property -/
+
+noncomputable section
+
+/-- **C07 surface certificate (soundness).** If the decidable certificate `surfaceCert verts faces`
+holds — the driver evaluates it EXACTLY over ℚ on the implementation's own faces — then
+1. the faces form a closed oriented surface, hence `Polyhedron.edges` lists every edge exactly once
+   as `(i<j)`, sorted, and `2·num_edges = Σ|f|` (`edges_once`);
+2. every face is a facet of the convex hull of the vertices (`IsHullFacet`: a supporting plane whose
+   on-plane input points are exactly the vertices of the face, three of them not collinear);
+3. the plane `Polyhedron._find_equations` computes for the face is a unit normal, contains EVERY
+   vertex of the face and has every other vertex strictly on its negative (inner) side;
+4. Euler's relation `V − E + F = 2` holds with `E = num_edges`, and `ConvexPolyhedron.num_edges`
+   (`V + F − 2`) agrees with `Polyhedron.num_edges` (`len(edges)`);
+5. every vertex belongs to some face. -/
+theorem surface_cert_sound (verts : List (V3 ℝ)) (faces : List Face)
+    (hcert : StructSpec.surfaceCert verts faces = true) :
+    StructSpec.ClosedOriented faces ∧
+    2 * numEdges faces = (faces.map List.length).sum ∧
+    (∀ f ∈ faces, StructSpec.IsHullFacet verts f) ∧
+    (∀ f ∈ faces,
+      let e := Poly3.faceEquation (verts.getD (f.getD 0 0) V3.zero) (verts.getD (f.getD 1 0) V3.zero)
+        (verts.getD (f.getD 2 0) V3.zero)
+      V3.normSq e.1 = 1 ∧
+      (∀ i, i < verts.length → i ∈ f → StructSpec.OnPlane e.1 e.2 (verts.getD i V3.zero)) ∧
+      (∀ i, i < verts.length → i ∉ f → V3.dot e.1 (verts.getD i V3.zero) + e.2 < 0)) ∧
+    ((verts.length : Int) - (numEdges faces : Int) + (faces.length : Int) = 2) ∧
+    numEdgesConvex verts.length faces.length = (numEdges faces : Int) ∧
+    (∀ i, i < verts.length → ∃ f ∈ faces, i ∈ f) := by
+  unfold StructSpec.surfaceCert at hcert
+  simp only [Bool.and_eq_true, List.all_eq_true, decide_eq_true_eq, List.mem_range, List.any_eq_true,
+    List.contains_eq_mem] at hcert
+  obtain ⟨⟨⟨h1, h2⟩, h3⟩, h4⟩ := hcert
+  have hcl := (closedOrientedB_iff faces).mp h1
+  have hE := num_edges_half_corners faces hcl
+  refine ⟨hcl, hE, ?_, ?_, ?_, ?_, ?_⟩
+  · intro f hf
+    exact hullFacet_of_cert verts f (h2 f hf).1.1 (h2 f hf).1.2
+  · intro f hf
+    exact equation_of_cert verts f (h2 f hf).1.1 (h2 f hf).1.2
+  · omega
+  · unfold numEdgesConvex; omega
+  · intro i hi
+    obtain ⟨f, hf, hif⟩ := h3 i hi
+    exact ⟨f, hf, hif⟩
+
+/-- **C07 certified faces are counter-clockwise seen from outside.** For a face that passes the
+certificate and any point `p` strictly on the inner side of its plane (e.g. any interior point of
+the solid) the first three vertices appear counter-clockwise from the side opposite to `p`
+(`CcwAwayFrom`): the face is listed counter-clockwise as seen from outside. -/
+theorem cert_face_ccw_from_inside (verts : List (V3 ℝ)) (f : Face) (p : V3 ℝ)
+    (hp : V3.dot (StructSpec.rawNormal (verts.getD (f.getD 0 0) V3.zero) (verts.getD (f.getD 1 0) V3.zero)
+        (verts.getD (f.getD 2 0) V3.zero)) (p - verts.getD (f.getD 0 0) V3.zero) < 0) :
+    StructSpec.CcwAwayFrom p (verts.getD (f.getD 0 0) V3.zero) (verts.getD (f.getD 1 0) V3.zero)
+      (verts.getD (f.getD 2 0) V3.zero) := by
+  unfold StructSpec.CcwAwayFrom
+  simp only [Scalar.lit, Scalar.ofNat_real, Nat.cast_zero]
+  rw [det_eq_dot_raw]
+  set m := StructSpec.rawNormal (verts.getD (f.getD 0 0) V3.zero) (verts.getD (f.getD 1 0) V3.zero)
+    (verts.getD (f.getD 2 0) V3.zero)
+  set v0 := verts.getD (f.getD 0 0) V3.zero
+  have : V3.dot m (v0 - p) = -(V3.dot m (p - v0)) := by
+    unfold V3.dot; simp only [V3.sub_x, V3.sub_y, V3.sub_z]; ring
+  rw [this]; linarith
+
+/-- **C07 a facet in the sense of the certificate is the exposed face `conv(vertices) ∩ plane`**:
+all convex combinations of the vertices lie on the non-positive side of its plane, and exactly
+those supported on the face's own vertices lie on the plane. -/
+theorem hull_facet_is_exposed_face (verts : List (V3 ℝ)) (face : Face)
+    (h : StructSpec.IsHullFacet verts face) :
+    ∃ (m : V3 ℝ) (d : ℝ), ∀ ws : List ℝ, ws.length = verts.length → (∀ w ∈ ws, 0 ≤ w) → ws.sum = 1 →
+      V3.dot m (combo ws verts) + d ≤ 0 ∧
+      (V3.dot m (combo ws verts) + d = 0 ↔ ∀ i, i < verts.length → i ∉ face → ws.getD i 0 = 0) :=
+  hullFacet_exposed verts face h
+
+/-- the counter-clockwise clause of the certificate, spelled out: every corner of the cycle turns
+left about the right-hand normal of its first three vertices -/
+theorem cycle_convex_ccw_spec (verts : List (V3 ℝ)) (face : Face)
+    (h : StructSpec.cycleConvexCcw verts face = true) :
+    3 ≤ face.length ∧ ∀ k, k < face.length →
+      let pt := fun k => verts.getD (face.getD (k % face.length) 0) V3.zero
+      0 < V3.dot (StructSpec.rawNormal (pt 0) (pt 1) (pt 2))
+        (V3.cross (pt (k + 1) - pt k) (pt (k + 2) - pt (k + 1))) := by
+  unfold StructSpec.cycleConvexCcw at h
+  simp only [Bool.and_eq_true, decide_eq_true_eq, List.all_eq_true, List.mem_range, Scalar.lit,
+    Scalar.ofNat_real, Nat.cast_zero] at h
+  exact ⟨h.1, fun k hk => h.2 k hk⟩
+
+end
+
+/-! ### `merge_faces`: components of near-coplanar neighbours -/
+
+noncomputable section
+
+/-- **C07 merge graph.** `merge_graph[i, j] = 1` exactly when `j` is a listed neighbour of `i` and
+the stored equations agree up to sign within `np.allclose(·, ·, atol, rtol)`. -/
+theorem merge_graph_entry (eqs : List (Eqn ℝ)) (nbrs : List (List Nat)) (atol rtol : ℝ) (i j : Nat) :
+    (i, j) ∈ mergeGraph eqs nbrs atol rtol ↔
+      i < eqs.length ∧ j ∈ nbrs.getD i [] ∧
+      (allclose atol rtol (eqs.getD i (V3.zero, Scalar.lit 0)) (eqs.getD j (V3.zero, Scalar.lit 0)) = true ∨
+       allclose atol rtol (eqs.getD i (V3.zero, Scalar.lit 0)) (negEqn (eqs.getD j (V3.zero, Scalar.lit 0))) = true) :=
+  mem_mergeGraph eqs nbrs atol rtol i j
+
+/-- **C07 `merge_faces` merges exactly the components of near-coplanar neighbours.** Under the
+label certificate (`labelsCert`: scipy's labels agree with the model's own labelling and are
+closed under the graph — evaluated by the driver on the recorded labels) two faces `i, j` receive
+the same label, i.e. end up in the same merged face (`merged_faces_union`), IF AND ONLY IF they are
+joined by a chain of faces in which consecutive ones are listed neighbours whose equations are
+`allclose` up to sign (`merge_graph_entry`). -/
+theorem merge_faces_components (eqs : List (Eqn ℝ)) (nbrs : List (List Nat)) (atol rtol : ℝ)
+    (labels : List Nat) (n : Nat)
+    (hcert : labelsCert n (mergeGraph eqs nbrs atol rtol) labels = true)
+    (i j : Nat) (hi : i < n) (hj : j < n) :
+    labels.getD i 0 = labels.getD j 0 ↔ Conn (mergeGraph eqs nbrs atol rtol) i j :=
+  labels_iff_conn n _ labels hcert i j hi hj
+
+/-- **C07 tolerance along a merge chain.** `m` consecutive `isclose` steps between values bounded
+by `B` only give `|x₀ − x_m| ≤ m·(atol + rtol·B)`: faces of one component are near-coplanar with a
+tolerance that grows with the length of the chain, NOT pairwise `allclose`. -/
+theorem merge_chain_tolerance (atol rtol B : ℝ) (hr : 0 ≤ rtol) (xs : List ℝ) (x0 : ℝ)
+    (hB : ∀ x ∈ xs, |x| ≤ B)
+    (hch : List.IsChain (fun a b => isclose a b rtol atol = true) (x0 :: xs)) :
+    |x0 - (x0 :: xs).getLast (by simp)| ≤ xs.length * (atol + rtol * B) :=
+  isclose_chain atol rtol B hr xs x0 hB hch
+
+/-- **C07 the transitivity caveat is real** (`_fails`-style witness): with the default tolerances
+three parallel planes at offsets `0, 1e-8, 2e-8`, neighbours in a row, form one component of the
+merge graph (so `merge_faces` unites them) although the outer two are not `allclose`, not even up
+to sign. -/
+theorem merge_not_pairwise_close :
+    let atol : ℝ := 1 / 100000000
+    let rtol : ℝ := 1 / 100000
+    let e0 : Eqn ℝ := (⟨0, 0, 1⟩, 0)
+    let e1 : Eqn ℝ := (⟨0, 0, 1⟩, 1 / 100000000)
+    let e2 : Eqn ℝ := (⟨0, 0, 1⟩, 2 / 100000000)
+    Conn (mergeGraph [e0, e1, e2] [[1], [0, 2], [1]] atol rtol) 0 2 ∧
+    allclose atol rtol e0 e2 = false ∧ allclose atol rtol e0 (negEqn e2) = false := by
+  intro atol rtol e0 e1 e2
+  obtain ⟨_, _, h3, h4, h5⟩ := allclose_not_transitive
+  refine ⟨?_, h3, h4⟩
+  rw [h5]
+  have h01 : Conn [((0 : Nat), (1 : Nat)), (1, 0), (1, 2), (2, 1)] 0 1 := Conn.edge (by simp)
+  exact Conn.step h01 (Or.inl (by simp))
+
+end
+
+/-! ### the angular sort lists a face counter-clockwise -/
+
+noncomputable section
+
+/-- **C07 angular sort, sortedness.** `angularOrder` (the `np.lexsort((distances, angles))` of
+`ConvexPolyhedron.sort_faces` and `ConvexPolygon._reorder_verts`) is a permutation of the indices
+with non-decreasing relative angle `mod(atan2 − atan2[ref], 2π)`. -/
+theorem angular_order_sorted (pts : List (V3 ℝ)) (ref : Nat) :
+    (angularOrder pts ref).Pairwise (fun i j => relKey pts ref i ≤ relKey pts ref j) ∧
+    (angularOrder pts ref).Perm (List.range pts.length) :=
+  angularOrder_sorted pts ref
+
+/-- **C07 the angular sort yields the counter-clockwise cycle (`angular_sort_ccw` of DESIGN P2).**
+Let `n` be the face normal, `R` any matrix with `R n = ẑ` and `det R = 1` (the kabsch contract),
+`vs` the vertices of the face, `c` their mean. Assume no vertex projects onto `c`, the vertices
+are not all on one line through `c`, and no two of them lie on a common ray from `c` (polynomial
+conditions; all true for a face in strictly convex position, whose mean is an interior point). Then any two cyclically
+consecutive entries `a, b` of the sort order satisfy `det(n, v_a − c, v_b − c) > 0`: seen against
+the normal, the edge `v_a → v_b` runs counter-clockwise around the interior point `c` — the face
+is listed counter-clockwise as seen from outside. -/
+theorem cp_sort_face_ccw (vs : List (V3 ℝ)) (n : V3 ℝ) (R : M3 ℝ)
+    (hRn : M3.mulVec R n = ⟨0, 0, 1⟩) (hdet : detM R = 1) (hne : vs ≠ [])
+    (hnz : ∀ i, i < vs.length → toC ((alignCentred R vs).getD i V3.zero) ≠ 0)
+    (hnc : ∃ i j, i < vs.length ∧ j < vs.length ∧
+      cross2 ((alignCentred R vs).getD i V3.zero) ((alignCentred R vs).getD j V3.zero) ≠ 0)
+    (hray : ∀ i j, i < vs.length → j < vs.length → i ≠ j →
+      cross2 ((alignCentred R vs).getD i V3.zero) ((alignCentred R vs).getD j V3.zero) ≠ 0 ∨
+      dot2 ((alignCentred R vs).getD i V3.zero) ((alignCentred R vs).getD j V3.zero) ≤ 0) :
+    let order := angularOrder (alignCentred R vs) 0
+    let c := mean vs
+    (∀ l1 a b l2, order = l1 ++ a :: b :: l2 →
+      0 < V3.det3 n (vs.getD a V3.zero - c) (vs.getD b V3.zero - c)) ∧
+    (∀ b mid a, order = b :: mid ++ [a] →
+      0 < V3.det3 n (vs.getD a V3.zero - c) (vs.getD b V3.zero - c)) := by
+  intro order c
+  have hlen : (alignCentred R vs).length = vs.length := by simp [alignCentred]
+  have hpos : 0 < vs.length := List.length_pos_iff.mpr hne
+  obtain ⟨hcx, hcy⟩ := alignCentred_centred R vs hne
+  have hget : ∀ k, k < vs.length →
+      (alignCentred R vs).getD k V3.zero = M3.mulVec R (vs.getD k V3.zero - c) := by
+    intro k hk
+    simp [alignCentred, List.getD_eq_getElem?_getD, hk, c]
+  have hdist : ∀ i j, i < vs.length → j < vs.length → i ≠ j →
+      relKey (alignCentred R vs) 0 i ≠ relKey (alignCentred R vs) 0 j := by
+    intro i j hi hj hij heq
+    have := same_ray_of_relKey_eq (alignCentred R vs) 0 i j (by rw [hlen]; exact hpos)
+      (by rw [hlen]; exact hi) (by rw [hlen]; exact hj) (hnz i hi) (hnz j hj) heq
+    rcases hray i j hi hj hij with h | h
+    · exact h this.1
+    · linarith [this.2]
+  have hmain := angular_sort_ccw (alignCentred R vs) 0 (by rw [hlen]; exact hpos)
+    (by rw [hlen]; exact hnz) hcx hcy (by rw [hlen]; exact hnc) (by rw [hlen]; exact hdist)
+  have hmem : ∀ k, k ∈ order → k < vs.length := by
+    intro k hk
+    have := (angularOrder_sorted (alignCentred R vs) 0).2.mem_iff.mp hk
+    rw [hlen] at this; simpa using this
+  constructor
+  · intro l1 a b l2 ho
+    have ha := hmem a (by rw [ho]; simp)
+    have hb := hmem b (by rw [ho]; simp)
+    have := hmain.1 l1 a b l2 ho
+    rw [hget a ha, hget b hb, cross2_rotated R n _ _ hRn, hdet, one_mul] at this
+    exact this
+  · intro b mid a ho
+    have ha := hmem a (by rw [ho]; simp)
+    have hb := hmem b (by rw [ho]; simp)
+    have := hmain.2 b mid a ho
+    rw [hget a ha, hget b hb, cross2_rotated R n _ _ hRn, hdet, one_mul] at this
+    exact this
+
+end
+
+/-! ### glue: `edge_vectors`, `edge_lengths`, `num_edges`, `get_dihedral` -/
+
+noncomputable section
+
+/-- `edge_vectors[k] = vertices[edges[k,1]] − vertices[edges[k,0]]`, `edge_lengths[k]` its norm,
+both with one entry per edge -/
+theorem edge_lengths_spec (verts : List (V3 ℝ)) (F : List Face) :
+    (edgeVectors verts F).length = numEdges F ∧ (edgeLengths verts F).length = numEdges F ∧
+    ∀ k, k < numEdges F →
+      (edgeVectors verts F).getD k V3.zero =
+        verts.getD ((edges F).getD k (0, 0)).2 V3.zero - verts.getD ((edges F).getD k (0, 0)).1 V3.zero ∧
+      (edgeLengths verts F).getD k 0 = V3.norm ((edgeVectors verts F).getD k V3.zero) := by
+  refine ⟨by simp [edgeVectors, numEdges], by simp [edgeLengths, edgeVectors, numEdges], ?_⟩
+  intro k hk
+  unfold numEdges at hk
+  constructor
+  · simp [edgeVectors, List.getD_eq_getElem?_getD, hk]
+  · simp [edgeLengths, edgeVectors, List.getD_eq_getElem?_getD, hk]
+
+/-- `ConvexPolyhedron.num_edges` (`V + F − 2`) equals `Polyhedron.num_edges` (`len(edges)`) exactly
+when Euler's relation holds for the edge list -/
+theorem num_edges_convex_iff_euler (V : Nat) (F : List Face) :
+    numEdgesConvex V F.length = (numEdges F : Int) ↔ (V : Int) - (numEdges F : Int) + (F.length : Int) = 2 := by
+  unfold numEdgesConvex; omega
+
+/-- `get_dihedral` lies in `[0, π]` -/
+theorem dihedral_range (nbrs : List (List Nat)) (normals : List (V3 ℝ)) (a b : Nat) (x : ℝ)
+    (h : getDihedral nbrs normals a b = .ok x) : 0 ≤ x ∧ x ≤ Real.pi := by
+  unfold getDihedral at h
+  split_ifs at h
+  simp only [Except.ok.injEq, Scalar.acos_real] at h
+  rw [← h]
+  exact ⟨Real.arccos_nonneg _, Real.arccos_le_pi _⟩
+
+/-- for unit normals `cos(get_dihedral(a,b)) = −n_a·n_b`: the dihedral is the supplement of the
+angle between the outward normals, i.e. the interior angle between the two faces -/
+theorem dihedral_cos (nbrs : List (List Nat)) (normals : List (V3 ℝ)) (a b : Nat) (x : ℝ)
+    (h : getDihedral nbrs normals a b = .ok x)
+    (hb : |V3.dot (normals.getD a V3.zero) (normals.getD b V3.zero)| ≤ 1) :
+    Real.cos x = -(V3.dot (normals.getD a V3.zero) (normals.getD b V3.zero)) := by
+  unfold getDihedral at h
+  split_ifs at h
+  simp only [Except.ok.injEq, Scalar.acos_real] at h
+  rw [← h]
+  have hd : V3.dot (-(normals.getD a V3.zero)) (normals.getD b V3.zero) =
+      -(V3.dot (normals.getD a V3.zero) (normals.getD b V3.zero)) := by
+    unfold V3.dot; simp only [V3.neg_x, V3.neg_y, V3.neg_z]; ring
+  rw [hd]
+  set t := V3.dot (normals.getD a V3.zero) (normals.getD b V3.zero)
+  have h1 : -1 ≤ -t := by have := (abs_le.mp hb).2; linarith
+  have h2 : -t ≤ 1 := by have := (abs_le.mp hb).1; linarith
+  have hmax : Scalar.max (-t) (-(Scalar.lit 1 : ℝ)) = -t := by
+    unfold Scalar.max
+    simp only [Scalar.lit, Scalar.ofNat_real, Nat.cast_one]
+    rw [if_neg (by linarith)]
+  have hmin : Scalar.min (-t) (Scalar.lit 1 : ℝ) = -t := by
+    unfold Scalar.min
+    simp only [Scalar.lit, Scalar.ofNat_real, Nat.cast_one]
+    rw [if_neg (by linarith)]
+  rw [hmax, hmin]
+  exact Real.cos_arccos h1 h2
+
+/-- Python index semantics of `get_dihedral`: an `a` outside `[-F, F)` raises `IndexError`, a
+negative `a` addresses face `F + a`, a negative `b` is never a neighbour (`ValueError`) -/
+theorem dihedral_py_index (nbrs : List (List Nat)) (normals : List (V3 ℝ)) (a b : Int) :
+    ((a < -(nbrs.length : Int) ∨ (nbrs.length : Int) ≤ a) → getDihedralPy nbrs normals a b = .error "IndexError") ∧
+    (0 ≤ a → a < nbrs.length → 0 ≤ b →
+      getDihedralPy nbrs normals a b = getDihedral nbrs normals a.toNat b.toNat) ∧
+    (-(nbrs.length : Int) ≤ a → a < 0 → 0 ≤ b →
+      getDihedralPy nbrs normals a b = getDihedral nbrs normals (a + nbrs.length).toNat b.toNat) ∧
+    (-(nbrs.length : Int) ≤ a → a < nbrs.length → b < 0 → getDihedralPy nbrs normals a b = .error "ValueError") := by
+  refine ⟨?_, ?_, ?_, ?_⟩
+  · intro h; unfold getDihedralPy; simp only; rw [if_pos h]
+  · intro h1 h2 h3
+    unfold getDihedralPy; simp only
+    rw [if_neg (by omega), if_neg (by omega), if_neg (by omega)]
+  · intro h1 h2 h3
+    unfold getDihedralPy; simp only
+    rw [if_neg (by omega), if_pos h2, if_neg (by omega)]
+  · intro h1 h2 h3
+    unfold getDihedralPy; simp only
+    rw [if_neg (by omega), if_pos h3]
+
+end
 
 /-! ### non-vacuity: the unit cube's face list (as `ConvexPolyhedron` produces it) -/
 
@@ -521,3 +1035,136 @@ example : StructSpec.CcwAwayFrom (⟨0, 0, 0⟩ : V3 ℝ) ⟨-1, -1, -1⟩ ⟨-1
 
 /-- `merge_faces`: two triangles of a square with the same label are united -/
 example : mergedFaces [[0, 1, 2], [0, 2, 3], [4, 5, 6]] [0, 0, 1] = [[0, 1, 2, 3], [4, 5, 6]] := by decide
+
+/-! ### the certificates as the driver evaluates them: over ℚ -/
+
+noncomputable section
+
+/-- **C07 surface certificate, as evaluated.** The driver computes `surfaceCert` over ℚ on the
+implementation's faces and the exact rational values of the (integral) input coordinates; the
+certificate only uses `+ − × <`, so its value is that of the real certificate on the same data, and
+all clauses of `surface_cert_sound` hold for the real polyhedron. -/
+theorem surface_cert_sound_rat (verts : List (V3 ℚ)) (faces : List Face)
+    (hcert : StructSpec.surfaceCert verts faces = true) :
+    StructSpec.surfaceCert (verts.map castV) faces = true ∧
+    StructSpec.ClosedOriented faces ∧
+    (∀ f ∈ faces, StructSpec.IsHullFacet (verts.map castV) f) ∧
+    ((verts.length : Int) - (numEdges faces : Int) + (faces.length : Int) = 2) := by
+  have h : StructSpec.surfaceCert (verts.map castV) faces = true := by rw [surfaceCert_cast]; exact hcert
+  have := surface_cert_sound (verts.map castV) faces h
+  refine ⟨h, this.1, this.2.2.1, ?_⟩
+  have h5 := this.2.2.2.2.1
+  simpa using h5
+
+/-- **C07 simplex certificate, as evaluated**: `simplexCert` over ℚ (with `p` = the exact vertex
+mean) implies that the model of `_sort_simplices` on the real vertices returns exactly the
+certified outward simplices. -/
+theorem sort_simplices_outward_rat (verts : List (V3 ℚ)) (start : List Face) (nbrs : List (List Nat))
+    (G : List Face) (p : V3 ℚ) (hcert : simplexCert verts start nbrs G p = true) :
+    sortSimplices (verts.map castV) start nbrs = G ∧ StructSpec.ClosedOriented G ∧
+    0 < CP.signedVolume (G.map (triOf (verts.map castV))) :=
+  sort_simplices_outward (verts.map castV) start nbrs G (castV p) (by rw [simplexCert_cast]; exact hcert)
+
+end
+
+/-! ### non-vacuity of the certificate theorems -/
+
+set_option maxRecDepth 8000 in
+/-- hypotheses of `propagation_flips_consistently_cert` / `poly_sort_faces_oriented` are
+satisfiable: the scrambled cube against the cube's own orientation -/
+example : orientCert cubeScrambled cubeFaces = true := by decide
+
+/-- hypothesis of `merge_faces_components` is satisfiable (the graph of `merge_not_pairwise_close`) -/
+example : labelsCert 3 [(0, 1), (1, 0), (1, 2), (2, 1)] [0, 0, 0] = true := by decide
+
+/-- … and a labelling that separates a component is rejected -/
+example : labelsCert 3 [(0, 1), (1, 0), (1, 2), (2, 1)] [0, 0, 1] = false := by decide
+
+noncomputable section
+
+def tetV : List (V3 ℝ) := [⟨0, 0, 0⟩, ⟨1, 0, 0⟩, ⟨0, 1, 0⟩, ⟨0, 0, 1⟩]
+def tetG : List Face := [[0, 2, 1], [0, 1, 3], [1, 2, 3], [0, 3, 2]]
+def tetStart : List Face := [[0, 2, 1], [3, 1, 0], [1, 2, 3], [2, 3, 0]]
+def tetN : List (List Nat) := [[1, 2, 3], [0, 2, 3], [0, 1, 3], [0, 1, 2]]
+
+theorem tet_outward : StructSpec.outwardFromB tetV ⟨1/4, 1/4, 1/4⟩ tetG = true := by
+  simp only [StructSpec.outwardFromB, tetG, tetV, List.all_cons, List.all_nil, List.getD_cons_zero,
+    List.getD_cons_succ, Bool.and_true, Bool.and_eq_true, decide_eq_true_eq]
+  refine ⟨?_, ?_, ?_, ?_⟩ <;> unfold_model <;> norm_num
+
+/-- hypotheses of `sort_simplices_outward` are satisfiable: a tetrahedron with two simplices reversed -/
+example : simplexCert tetV tetStart tetN tetG ⟨1/4, 1/4, 1/4⟩ = true := by
+  unfold simplexCert
+  have h1 : StructSpec.sameUpToReversalB tetStart tetG = true := by decide
+  have h2 : StructSpec.closedOrientedB tetG = true := by decide
+  have h3 : nbrsShareB tetN tetStart = true := by decide
+  have h4 : visitsAll tetN tetStart = true := by decide
+  have h6 : (tetStart.all fun s => s.length == 3) = true := by decide
+  have h7 : (!tetG.isEmpty) = true := by decide
+  rw [h1, h2, h3, h4, tet_outward, h6, h7]; rfl
+
+/-- hypotheses of `surface_cert_sound` are satisfiable: the tetrahedron passes the exact certificate -/
+example : StructSpec.surfaceCert tetV tetG = true := by
+  unfold StructSpec.surfaceCert
+  have h1 : StructSpec.closedOrientedB tetG = true := by decide
+  have h3 : ((List.range tetV.length).all fun i => tetG.any fun f => f.contains i) = true := by
+    simp [tetV, tetG, List.range_succ]
+  have h4 : decide (2 * (tetV.length + tetG.length) = (tetG.map List.length).sum + 4) = true := by
+    simp [tetV, tetG]
+  have h2 : (tetG.all fun f => StructSpec.faceWellFormed tetV f && StructSpec.isSupportingFacet tetV f &&
+      StructSpec.cycleConvexCcw tetV f) = true := by
+    simp only [tetG, List.all_cons, List.all_nil, Bool.and_true, Bool.and_eq_true]
+    refine ⟨⟨⟨?_, ?_⟩, ?_⟩, ⟨⟨?_, ?_⟩, ?_⟩, ⟨⟨?_, ?_⟩, ?_⟩, ⟨⟨?_, ?_⟩, ?_⟩⟩
+    all_goals
+      simp [StructSpec.faceWellFormed, StructSpec.isSupportingFacet, StructSpec.sides,
+        StructSpec.cycleConvexCcw, StructSpec.rawNormal, StructSpec.sgn, tetV, V3.cross, V3.dot,
+        List.range_succ, Scalar.lit] <;> norm_num
+  rw [h1, h2, h3, h4]; rfl
+
+def sqV : List (V3 ℝ) := [⟨1, 0, 0⟩, ⟨0, 1, 0⟩, ⟨-1, 0, 0⟩, ⟨0, -1, 0⟩]
+def idM : M3 ℝ := ⟨1, 0, 0, 0, 1, 0, 0, 0, 1⟩
+
+theorem sq_aligned : alignCentred idM sqV = sqV := by
+  have hm : mean sqV = ⟨0, 0, 0⟩ := by
+    simp [mean, sqV, V3.sum, V3.add, V3.sdiv, V3.zero, Scalar.lit]
+  unfold alignCentred
+  rw [hm]
+  simp [sqV, idM, M3.mulVec, V3.sub_x, V3.sub_y, V3.sub_z]
+
+/-- hypotheses of `cp_sort_face_ccw` are satisfiable: a square face in the `z = 0` plane -/
+example : (M3.mulVec idM ⟨0, 0, 1⟩ = (⟨0, 0, 1⟩ : V3 ℝ)) ∧ detM idM = 1 ∧ sqV ≠ [] ∧
+    (∀ i, i < sqV.length → toC ((alignCentred idM sqV).getD i V3.zero) ≠ 0) ∧
+    (∃ i j, i < sqV.length ∧ j < sqV.length ∧
+      cross2 ((alignCentred idM sqV).getD i V3.zero) ((alignCentred idM sqV).getD j V3.zero) ≠ 0) ∧
+    (∀ i j, i < sqV.length → j < sqV.length → i ≠ j →
+      cross2 ((alignCentred idM sqV).getD i V3.zero) ((alignCentred idM sqV).getD j V3.zero) ≠ 0 ∨
+      dot2 ((alignCentred idM sqV).getD i V3.zero) ((alignCentred idM sqV).getD j V3.zero) ≤ 0) := by
+  rw [sq_aligned]
+  refine ⟨by simp [idM, M3.mulVec], by simp [detM, idM, V3.det3, V3.dot, V3.cross], by simp [sqV], ?_, ?_, ?_⟩
+  · intro i hi
+    have : i = 0 ∨ i = 1 ∨ i = 2 ∨ i = 3 := by simp [sqV] at hi; omega
+    rcases this with rfl | rfl | rfl | rfl <;> simp [sqV, toC_ne_zero_iff]
+  · exact ⟨0, 1, by simp [sqV], by simp [sqV], by simp [sqV, cross2]⟩
+  · intro i j hi hj hij
+    have hi' : i = 0 ∨ i = 1 ∨ i = 2 ∨ i = 3 := by simp [sqV] at hi; omega
+    have hj' : j = 0 ∨ j = 1 ∨ j = 2 ∨ j = 3 := by simp [sqV] at hj; omega
+    rcases hi' with rfl | rfl | rfl | rfl <;> rcases hj' with rfl | rfl | rfl | rfl <;>
+      first | exact absurd rfl hij | (simp [sqV, cross2, dot2])
+
+end
+
+/-! the same certificates over ℚ, evaluated by the kernel exactly as the driver evaluates them -/
+
+def tetVq : List (V3 Rat) := [⟨0, 0, 0⟩, ⟨1, 0, 0⟩, ⟨0, 1, 0⟩, ⟨0, 0, 1⟩]
+
+set_option maxRecDepth 100000 in
+/-- hypothesis of `surface_cert_sound_rat` is satisfiable -/
+example : StructSpec.surfaceCert tetVq tetG = true := by decide +kernel
+
+set_option maxRecDepth 100000 in
+/-- hypothesis of `sort_simplices_outward_rat` is satisfiable -/
+example : simplexCert tetVq tetStart tetN tetG ⟨1/4, 1/4, 1/4⟩ = true := by decide +kernel
+
+set_option maxRecDepth 100000 in
+/-- a surface with one face listed clockwise is rejected by the certificate -/
+example : StructSpec.surfaceCert tetVq [[0, 1, 2], [0, 1, 3], [1, 2, 3], [0, 3, 2]] = false := by decide +kernel
